@@ -386,6 +386,11 @@ func c11Process(c *vk.Ctx, r *rand.Rand, round int) bool {
 			srv.WaitLog([]string{"Stopped all listeners for running config", "Failed to update server"}, 700*time.Millisecond)
 			c.Count("sighup_bursts", 1)
 		}
+		// the window ends when the server has finished every reload it started (a second signal of a
+		// burst may be served after the first completion marker; on a loaded machine much later)
+		if !srv.WaitReloadsDone(60 * time.Second) {
+			c.Inconclusive("a reload started by the server did not finish within 60 s (window accounting impossible)")
+		}
 		reloading.Store(false)
 		w.b = time.Now()
 		windows = append(windows, w)
@@ -454,14 +459,20 @@ func c11Process(c *vk.Ctx, r *rand.Rand, round int) bool {
 	}
 	// the client sees the end of its connection before the server has finished accounting for it
 	// (the close report follows the FIN): give the counters a bounded time to catch up
-	for dl := time.Now().Add(10 * time.Second); int(delta("ERR_CONNECT")) < nEOF0 && time.Now().Before(dl); {
+	for dl := time.Now().Add(60 * time.Second); int(delta("ERR_CONNECT")) < nEOF0 && time.Now().Before(dl); {
 		time.Sleep(50 * time.Millisecond)
 		if m, err := srv.Metrics(); err == nil {
 			after = m
 		}
 	}
 	if got := delta("ERR_CONNECT"); int(got) != nEOF0 {
-		c.Violation("C11/unserved-exchanges-not-explained-by-cancelled-dials", map[string]any{"clients_saw_empty_eof": nEOF0, "err_connect_delta": got})
+		all := map[string]float64{}
+		for _, st := range []string{"OK", "ERR_CONNECT", "ERR_CIPHER", "ERR_READ_ADDRESS", "ERR_RELAY_CLIENT", "ERR_RELAY_TARGET", "ERR_REPLAY_CLIENT", "ERR_REPLAY_SERVER", "ERR_ADDRESS_INVALID", "ERR_ADDRESS_PRIVATE"} {
+			if d := delta(st); d != 0 {
+				all[st] = d
+			}
+		}
+		c.Violation("C11/unserved-exchanges-not-explained-by-cancelled-dials", map[string]any{"clients_saw_empty_eof": nEOF0, "err_connect_delta": got, "closed_by_status": all, "exchanges": len(exchanges), "opened_delta": metricSum(after, "shadowsocks_tcp_connections_opened", nil) - metricSum(before, "shadowsocks_tcp_connections_opened", nil)})
 		return false
 	}
 	for _, st := range []string{"ERR_CIPHER", "ERR_READ_ADDRESS", "ERR_RELAY_CLIENT", "ERR_RELAY_TARGET", "ERR_REPLAY_CLIENT", "ERR_REPLAY_SERVER", "ERR_ADDRESS_INVALID", "ERR_ADDRESS_PRIVATE"} {
